@@ -478,6 +478,8 @@ pub fn crash_gen(p: &mut Profile) {
         "C04" => {
             g.template_pct = 50;
             g.l1_short_pct = 8;
+            // a backend fault before the crash (see C05)
+            p.oracles.seq_fault_pct = 8;
             g.par_pct = 35;
             g.max_clients = 4;
             g.racy_discard_pct = 30;
